@@ -300,7 +300,7 @@ func checkLateResults(w *World, r *Report, rule string) {
 		off := offs[0]
 		bad := ""
 		saw := false
-		w.enumPaths(fn, pathOpts{}, func(p *Path) {
+		w.enumPaths(fn, off.opts(w), func(p *Path) {
 			k := p.armTaken(off.Sel)
 			if k < 0 || k == off.State {
 				return
